@@ -137,22 +137,30 @@ func c02calls(tier string) []c02call {
 	return cs
 }
 
+// a directory whose name ends the way the kernel marks unlinked objects in /proc/<pid>/cwd and /proc/<pid>/fd/<n>
+const c02delDir = "e (deleted)"
+
 type c02forest struct {
 	root  string
 	links map[string]string // relative link path → target
 }
 
 func (f *c02forest) build() error {
-	for _, d := range []string{"a", "b", "a/c"} {
+	for _, d := range []string{"a", "b", "a/c", c02delDir} {
 		if err := os.MkdirAll(filepath.Join(f.root, d), 0755); err != nil {
 			return err
 		}
 	}
-	for _, x := range []string{"a/x", "b/x", "x"} {
+	for _, x := range []string{"a/x", "b/x", "x", c02delDir + "/x"} {
 		os.WriteFile(filepath.Join(f.root, x), []byte("x"), 0644)
 	}
 	for l, t := range f.links {
 		t = strings.ReplaceAll(t, "<abs>", f.root)
+		if strings.HasPrefix(t, "<up>") {
+			// a relative target that climbs to the file-system root from the link's own directory
+			depth := strings.Count(filepath.Dir(filepath.Join(f.root, l)), "/")
+			t = strings.Repeat("../", depth) + strings.TrimPrefix(t, "<up>")
+		}
 		if err := os.Symlink(t, filepath.Join(f.root, l)); err != nil {
 			return err
 		}
@@ -236,7 +244,7 @@ type c02item struct {
 
 func init() {
 	registry["C02"] = func(tier string) *mc.Spec {
-		targets := []string{"b", "<abs>/b", "../b", "a/c", ".", "..", "l2", "dangling", "/proc/self/cwd", "x"}
+		targets := []string{"b", "<abs>/b", "../b", "a/c", ".", "..", "l2", "dangling", "/proc/self/cwd", "x", "<up>proc/self/cwd", "<up>proc/thread-self/cwd/a"}
 		comps := []string{"a", "b", "c", "x", "l", ".", ".."}
 		maxComps := 2
 		if tier == "thorough" {
@@ -244,8 +252,8 @@ func init() {
 		}
 		spec := &mc.Spec{
 			Level: "exploration",
-			Rule: "one forest per execution (dirs a, b, a/c; files a/x, b/x, x; zero or one symlink at l or a/l over 10 target kinds, thorough: also both with a second link l2); in it every pathname of ≤ maxComps components over {a,b,c,x,l,.,..} × {relative, absolute} × {plain, trailing slash, doubled slash} " +
-				"plus /proc/self and /proc/thread-self aliases × cwd ∈ {root, a} × dirfd encoding ∈ {AT_FDCWD sign-extended, AT_FDCWD zero-extended, directory fd, directory fd with garbage in the upper half, closed fd} × every traced path syscall/flag word of the tier; for five of the names also × placement of the string in the tracee {ordinary, ending at an unmapped page, write-only page, execute-only page}, " +
+			Rule: "one forest per execution (dirs a, b, a/c; files a/x, b/x, x; zero or one symlink at l or a/l over 12 target kinds (relative, absolute, dangling, through /proc/self both absolute and climbing there relatively), thorough: also both with a second link l2); in it every pathname of ≤ maxComps components over {a,b,c,x,l,.,..} × {relative, absolute} × {plain, trailing slash, doubled slash} " +
+				"plus /proc/self and /proc/thread-self aliases × cwd ∈ {root, a} × dirfd encoding ∈ {AT_FDCWD sign-extended, AT_FDCWD zero-extended, directory fd, directory fd with garbage in the upper half, closed fd, a directory whose name ends in ' (deleted)' as cwd and as dirfd} × every traced path syscall/flag word of the tier; for five of the names also × placement of the string in the tracee {ordinary, ending at an unmapped page, write-only page, execute-only page}, " +
 				"issued by a real tracee under runner/ptrace with a recording soft-ban policy. Oracle: the kernel's own resolution of the same (dirfd, pathname) in the harness (O_PATH[|O_NOFOLLOW] + readlink of /proc/self/fd), access class from the call and flags. " +
 				"non-trivial: the pathname is not already canonical; distinct = (forest, call, dirfd encoding, pathname, answer)",
 			Bound: map[string]any{"max_components": maxComps, "targets": targets,
@@ -321,14 +329,20 @@ func c02forestRun(x *mc.X, links map[string]string, calls []c02call, comps []str
 		return
 	}
 	defer unix.Close(dfdA)
+	dfdE, err := unix.Open(filepath.Join(root, c02delDir), unix.O_PATH|unix.O_DIRECTORY|unix.O_CLOEXEC, 0)
+	if err != nil {
+		x.Failf("C02/harness", "%v", err)
+		return
+	}
+	defer unix.Close(dfdE)
 	cwdFd := map[string]int{}
-	for _, c := range []string{"", "a"} {
+	for _, c := range []string{"", "a", c02delDir} {
 		fd, _ := unix.Open(filepath.Join(root, c), unix.O_PATH|unix.O_DIRECTORY|unix.O_CLOEXEC, 0)
 		cwdFd[c] = fd
 		defer unix.Close(fd)
 	}
 	type enc struct{ name, val string }
-	encs := []enc{{"atfdcwd", "-100"}, {"zext-atfdcwd", "0x00000000ffffff9c"}, {"dirfd", "3"}, {"dirfd-upper-garbage", "0xdeadbeef00000003"}, {"closed-fd", "99"}, {"minus-one", "-1"}}
+	encs := []enc{{"atfdcwd", "-100"}, {"zext-atfdcwd", "0x00000000ffffff9c"}, {"dirfd", "3"}, {"dirfd-upper-garbage", "0xdeadbeef00000003"}, {"closed-fd", "99"}, {"minus-one", "-1"}, {"dirfd4", "4"}}
 	rels := c02paths(comps, maxComps)
 	var names []string
 	for _, r := range rels {
@@ -353,13 +367,21 @@ func c02forestRun(x *mc.X, links map[string]string, calls []c02call, comps []str
 	var body strings.Builder
 	second := []string{"b/x", "l", root + "/a/../b/x"} // second names of two-path calls
 	placed := map[string]bool{"a/x": true, "l": true, "l/x": true, "x": true, root + "//a/x": true}
-	for _, cwd := range []string{"", "a"} {
+	inDel := map[string]bool{"x": true, "../b/x": true, ".": true}
+	for _, cwd := range []string{"", "a", c02delDir} {
 		body.WriteString("C " + str(filepath.Join(root, cwd)) + "\n")
 		for ci := range calls {
 			c := &calls[ci]
 			for _, name := range names {
 				for _, e := range encs {
 					if c.args[0].dirfdArg < 0 && e.name != "atfdcwd" {
+						continue
+					}
+					// the directory named "… (deleted)": as working directory and as directory descriptor 4, a few names only
+					if e.name == "dirfd4" && cwd != c02delDir {
+						continue
+					}
+					if cwd == c02delDir && (!inDel[name] || (e.name != "atfdcwd" && e.name != "dirfd4")) {
 						continue
 					}
 					if cwd == "a" && filepath.IsAbs(name) && !strings.HasPrefix(name, "/proc/") {
@@ -422,7 +444,7 @@ func c02forestRun(x *mc.X, links map[string]string, calls []c02call, comps []str
 	ctx, cancel := context.WithTimeout(context.Background(), 280*time.Second)
 	defer cancel()
 	res := runPtrace(ctx, []string{probe("sysrun")}, func(r *ptrace.Runner) {
-		r.Files = []uintptr{sf.Fd(), devnull(), devnull(), uintptr(dfdA)}
+		r.Files = []uintptr{sf.Fd(), devnull(), devnull(), uintptr(dfdA), uintptr(dfdE)}
 		r.Seccomp = c02Filter()
 		r.Handler = pol
 		r.WorkDir = root
@@ -458,6 +480,9 @@ func c02forestRun(x *mc.X, links map[string]string, calls []c02call, comps []str
 			}
 			if useDirfd {
 				b = dfdA
+			}
+			if a.dirfdArg >= 0 && it.dirfd == "dirfd4" && ai == 0 {
+				b = dfdE
 			}
 			if a.dirfdArg >= 0 && (it.dirfd == "closed-fd" || it.dirfd == "minus-one") && !filepath.IsAbs(name) && ai == 0 {
 				skipped++
@@ -509,6 +534,12 @@ func c02forestRun(x *mc.X, links map[string]string, calls []c02call, comps []str
 								tgt = filepath.Join(filepath.Dir(cur), tgt)
 							}
 							cur = filepath.Clean(tgt)
+							// a target through the tracee's own /proc/self/cwd means the tracee's working directory
+							for _, pre := range []string{"/proc/self/cwd", "/proc/thread-self/cwd"} {
+								if cur == pre || strings.HasPrefix(cur, pre+"/") {
+									cur = filepath.Join(root, it.cwd) + cur[len(pre):]
+								}
+							}
 						}
 						if cur == got.path {
 							kind += "(followed)"
